@@ -171,8 +171,29 @@ func circuitTypeOf(p *core.Program, anchor string) (*types.Named, *ssa.Function,
 	seen := map[*ssa.Function]bool{}
 	var found *types.Named
 	var where *ssa.Function
-	var visit func(f *ssa.Function)
-	visit = func(f *ssa.Function) {
+	// dyn: what is known about the dynamic type of a function's interface-typed parameters (from the call site that led
+	// here) — wrappers such as compileR1CS(circuit frontend.Circuit) hand the circuit on as a parameter
+	type dynInfo struct {
+		n  *types.Named
+		fn *ssa.Function
+	}
+	var dynOf func(v ssa.Value, f *ssa.Function, bind map[*ssa.Parameter]dynInfo) (dynInfo, bool)
+	dynOf = func(v ssa.Value, f *ssa.Function, bind map[*ssa.Parameter]dynInfo) (dynInfo, bool) {
+		switch x := v.(type) {
+		case *ssa.MakeInterface:
+			if n := namedOf(x.X.Type()); n != nil {
+				return dynInfo{n, f}, true
+			}
+		case *ssa.ChangeInterface:
+			return dynOf(x.X, f, bind)
+		case *ssa.Parameter:
+			d, ok := bind[x]
+			return d, ok
+		}
+		return dynInfo{}, false
+	}
+	var visit func(f *ssa.Function, bind map[*ssa.Parameter]dynInfo)
+	visit = func(f *ssa.Function, bind map[*ssa.Parameter]dynInfo) {
 		if f == nil || seen[f] || f.Blocks == nil || found != nil {
 			return
 		}
@@ -193,11 +214,11 @@ func circuitTypeOf(p *core.Program, anchor string) (*types.Named, *ssa.Function,
 						break
 					}
 					if fv, ok := a.(*ssa.Function); ok && fv.Pkg != nil && core.InRepo(fv.Pkg.Pkg.Path()) {
-						visit(fv)
+						visit(fv, nil)
 					}
 					if mc, ok := a.(*ssa.MakeClosure); ok {
 						if cf, ok := mc.Fn.(*ssa.Function); ok {
-							visit(cf)
+							visit(cf, nil)
 						}
 					}
 				}
@@ -205,26 +226,32 @@ func circuitTypeOf(p *core.Program, anchor string) (*types.Named, *ssa.Function,
 				if callee == nil {
 					continue
 				}
+				sub := map[*ssa.Parameter]dynInfo{}
+				for k, a := range call.Common().Args {
+					if k < len(callee.Params) {
+						if d, ok := dynOf(a, f, bind); ok {
+							sub[callee.Params[k]] = d
+						}
+					}
+				}
 				if o := callee.Origin(); o != nil && callee.Pkg == nil {
 					if o.Pkg != nil && core.InRepo(o.Pkg.Pkg.Path()) {
-						visit(callee)
+						visit(callee, sub)
 					}
 					continue
 				}
 				if callee.Pkg != nil && callee.Pkg.Pkg.Path() == "github.com/consensys/gnark/frontend" && callee.Name() == "Compile" && len(call.Common().Args) >= 3 {
-					if mi, ok := call.Common().Args[2].(*ssa.MakeInterface); ok {
-						if n := namedOf(mi.X.Type()); n != nil {
-							found, where = n, f
-						}
+					if d, ok := dynOf(call.Common().Args[2], f, bind); ok {
+						found, where = d.n, d.fn
 					}
 				}
 				if callee.Pkg != nil && core.InRepo(callee.Pkg.Pkg.Path()) {
-					visit(callee)
+					visit(callee, sub)
 				}
 			}
 		}
 	}
-	visit(fn)
+	visit(fn, nil)
 	if found == nil {
 		return nil, nil, "no frontend.Compile call reachable from prover." + anchor
 	}
